@@ -57,6 +57,10 @@ pub enum Evil {
     OpenFloodNoListener { n: u16 },
     /// Valid message kinds sent with a mutated code byte.
     UnknownCode(u8),
+    /// Many PortData frames without any port (they cost no credit) to a receiver that does not read.
+    EmptyPortDataFlood { port: u8, n: u16, last: bool },
+    /// A multi-chunk PortData message that never ends (first, then non-final chunks within credit).
+    EndlessPortData { port: u8, chunks: u8 },
 }
 
 #[derive(Clone, Debug, Serialize, Deserialize, PartialEq, Eq, Hash)]
@@ -105,6 +109,8 @@ fn evil_strategy() -> BoxedStrategy<Evil> {
         1 => (2u8..=12).prop_map(|n| Evil::ClientFinishFlood { n }),
         2 => (50u16..=600).prop_map(|n| Evil::OpenFloodNoListener { n }),
         1 => prop_oneof![Just(0u8), 16u8..=255].prop_map(Evil::UnknownCode),
+        2 => (any::<u8>(), 300u16..=3000, any::<bool>()).prop_map(|(port, n, last)| Evil::EmptyPortDataFlood { port, n, last }),
+        2 => (any::<u8>(), 20u8..=120).prop_map(|(port, chunks)| Evil::EndlessPortData { port, chunks }),
     ]
     .boxed()
 }
@@ -119,6 +125,13 @@ pub fn strategy(tier: Tier) -> BoxedStrategy<Case> {
         (any::<bool>(), any::<bool>(), any::<bool>(), any::<bool>()),
         proptest::collection::vec(evil_strategy(), 1..4),
     )
+        .prop_map(|(real, peer, peer_version, prefix, (a, b, c, d), mut evil)| {
+            // Floods leave the harness's credit model behind: nothing may follow them.
+            if let Some(i) = evil.iter().position(|e| matches!(e, Evil::EmptyPortDataFlood { .. } | Evil::EndlessPortData { .. })) {
+                evil.truncate(i + 1);
+            }
+            (real, peer, peer_version, prefix, (a, b, c, d), evil)
+        })
         .prop_map(|(real, peer, peer_version, prefix, (a, b, c, d), evil)| Case {
             real,
             peer,
@@ -166,6 +179,7 @@ pub struct EvilStats {
     pub probe_done: bool,
     pub bytes_over_credit: u64,
     pub max_tasks: usize,
+    pub zero_credit_buffered: u32,
 }
 
 type R<T> = Result<T, (String, String)>;
@@ -417,6 +431,105 @@ async fn inject(conv: &mut Conv, e: &Evil, run: &tokio::task::JoinHandle<crate::
         Evil::UnknownCode(c) => {
             raw!(vec![*c, 1, 2, 3, 4, 5]);
         }
+        Evil::EmptyPortDataFlood { port, n, last } => {
+            if let Some(pi) = sel(*port) {
+                if !conv.ports[pi].peer_send_finished && conv.ports[pi].rx.is_some() {
+                    let real = conv.ports[pi].real;
+                    let mut sent = 0u32;
+                    for k in 0..*n {
+                        let m = RefMsg::PortData { port: real, first: k == 0 || *last, last: *last, wait: false, ports: vec![], ids: None };
+                        if conv.peer.send_raw(m.encode()).await.is_err() {
+                            break;
+                        }
+                        sent += 1;
+                        if k % 64 == 63 {
+                            settle().await;
+                            if run.is_finished() {
+                                break;
+                            }
+                        }
+                    }
+                    settle().await;
+                    if !run.is_finished() {
+                        // The local user did not read: everything accepted is buffered for this port.
+                        // Count what can be drained now without the peer sending anything else.
+                        let rx = conv.ports[pi].rx.as_mut().unwrap();
+                        let mut drained = 0u32;
+                        loop {
+                            match sim::within(1, rx.recv_any()).await {
+                                Ok(Ok(Some(_))) => drained += 1,
+                                _ => break,
+                            }
+                            if drained > sent {
+                                break;
+                            }
+                        }
+                        st.zero_credit_buffered = st.zero_credit_buffered.max(if *last { drained } else { sent });
+                        let bound = conv.real_rb as u32 + 64;
+                        if *last && drained > bound {
+                            return err(
+                                "C08/unbounded-zero-credit-frames",
+                                format!(
+                                    "peer sent {sent} PortData frames without ports (0 credits each) to a port nobody reads; the endpoint buffered all of them ({drained} messages drained afterwards), advertised receive_buffer is {} bytes",
+                                    conv.real_rb
+                                ),
+                            );
+                        }
+                    }
+                }
+            }
+        }
+        Evil::EndlessPortData { port, chunks } => {
+            if let Some(pi) = sel(*port) {
+                if !conv.ports[pi].peer_send_finished && conv.ports[pi].rx.is_some() && conv.real_cs >= 4 {
+                    let real = conv.ports[pi].real;
+                    // The local user reads (so credits come back), the message never ends.
+                    let mut rx = conv.ports[pi].rx.take().unwrap();
+                    let reader = sim::spawn_actor(async move {
+                        let r = sim::within(600, rx.recv_any()).await;
+                        (rx, r.map(|r| r.map(|o| o.is_some()).map_err(|e| e.to_string())))
+                    });
+                    let max_ports = 16u32; // real endpoints in this check use max_received_ports = 16
+                    let mut sent_ports = 0u32;
+                    for k in 0..*chunks as u32 {
+                        conv.absorb_credits().ok();
+                        if conv.ports[pi].avail < 4 {
+                            settle().await;
+                            // collect credits the real endpoint returned meanwhile
+                            while let Ok(rxm) = conv.peer.next_msg(1).await {
+                                if let RefMsg::PortCredits { port, credits } = rxm.msg {
+                                    conv.peer.credits_seen.push((port, credits));
+                                }
+                            }
+                            conv.absorb_credits().ok();
+                            if conv.ports[pi].avail < 4 {
+                                break;
+                            }
+                        }
+                        conv.ports[pi].avail -= 4;
+                        let q = conv.fresh_peer_port(1_000_000 + k);
+                        let m = RefMsg::PortData { port: real, first: k == 0, last: false, wait: false, ports: vec![q], ids: None };
+                        if conv.peer.send_raw(m.encode()).await.is_err() {
+                            break;
+                        }
+                        sent_ports += 1;
+                        if reader.is_finished() || run.is_finished() {
+                            break;
+                        }
+                    }
+                    settle().await;
+                    if sent_ports > max_ports + 8 && !reader.is_finished() && !run.is_finished() {
+                        return err(
+                            "C08/unbounded-port-requests",
+                            format!("peer sent {sent_ports} port requests in one never-ending PortData message; max_received_ports is {max_ports} but the receiver neither fails nor does the connection end"),
+                        );
+                    }
+                    if let Ok(Ok((rx, _))) = sim::within(700, reader).await {
+                        conv.ports[pi].rx = Some(rx);
+                    }
+                }
+            }
+        }
     }
     Ok(())
 }
@@ -605,7 +718,7 @@ pub async fn hostile(case: &Case) -> (Option<(String, String)>, EvilStats, u64) 
                 || case.evil.iter().any(|e| matches!(e, Evil::Raw(b) if b.first() == Some(&13)));
             let raw_state_change = case.evil.iter().any(|e| match e {
                 Evil::Raw(b) => matches!(b.first(), Some(4..=15)),
-                Evil::Truncated { .. } => true,
+                Evil::Truncated { .. } | Evil::EmptyPortDataFlood { .. } | Evil::EndlessPortData { .. } => true,
                 _ => false,
             });
             if conv.listener.is_some() && !peer_client_finished && !raw_state_change {
